@@ -142,7 +142,8 @@ class Trace:
     labelling kernel and the ADMM entry point.  Records, per phase call: name, input state
     object, output state object, snapshots before/after of the input."""
 
-    def __init__(self, record_states=True, capture_kernel=True):
+    def __init__(self, record_states=True, capture_kernel=True, wrap_admm=True):
+        self.wrap_admm = wrap_admm
         self.events = []            # dicts
         self.kernel_calls = []      # (cost_table copy, beta as passed, labels, cost)
         self.admm_calls = []        # dicts of the arguments reaching admm_optimize_theta
@@ -199,7 +200,10 @@ class Trace:
             return orig_admm(*a, **k)
         # the in-process pool calls the function object it is handed; graphical_lasso looks it
         # up as `admm.admm_optimize_theta` at submit time
-        tr._stack.enter_context(patched(admm, "admm_optimize_theta", admm_wrapped))
+        admm_wrapped.__module__ = "fast_ticc.admm"
+        admm_wrapped.__qualname__ = admm_wrapped.__name__ = "admm_optimize_theta"
+        if self.wrap_admm:
+            tr._stack.enter_context(patched(admm, "admm_optimize_theta", admm_wrapped))
         return self
 
     def __exit__(self, *exc):
